@@ -177,8 +177,10 @@ class SimSocket(object):
             if link.cur is None:
                 link.device._check_stall(w.clock.now)
                 if link.device.stalled and (link.device.stall or {}).get('kind') == 'eof':
-                    # the peer has closed its side: end-of-stream, recv() returns b'' at once
+                    # the peer has closed its side: end-of-stream, recv() returns b'' at once. A caller that polls in a loop burns CPU
+                    # time doing so; the empty read is charged like an idle read of the in-memory transport
                     link._rec(idx, actor, 'r', n, self._timeout, 0)
+                    w.clock.advance(link.cfg.get('idle_cost', 0.01))
                     return b''
             data = link.try_read(n, actor)
             if data is not None:
